@@ -96,6 +96,9 @@ def predicate(c, o):
     bad = []
     if "panic" in o:
         return [{"failed": "the engine manager panicked: " + str(o["panic"])[:300]}]
+    if "crash" in o:
+        what = "hangs (no progress for 40 s)" if o.get("rc") == 3 else f"kills the process (rc {o.get('rc')})"
+        return [{"failed": "the engine manager " + what + " on this input", "stderr": o.get("stderr", "")[-500:]}]
     if not o.get("init"):
         return bad
     fb = c["first_block"]
@@ -374,6 +377,18 @@ def gen_case(rng, profile):
     return c
 
 
+def run_impl_all(cases):
+    """run_impl, re-running the cases a dying harness process left behind."""
+    outs = common.run_impl("blockstore", cases, "dev", timeout=1200)
+    for _ in range(6):
+        todo = [i for i, o in enumerate(outs) if "skipped" in o]
+        if not todo:
+            break
+        for i, o in zip(todo, common.run_impl("blockstore", [cases[i] for i in todo], "dev", timeout=1200)):
+            outs[i] = o
+    return outs
+
+
 def corpus_cases():
     out = []
     d = common.CORPUS
@@ -416,6 +431,8 @@ def glue_pins():
 def features(c, o):
     """What a run exercised (measured on the implementation's output)."""
     f = set()
+    if "crash" in o or "panic" in o:
+        return {"died"}
     if not o.get("init"):
         return {"init_rejected"}
     pushed = 0
@@ -462,14 +479,14 @@ def run(rep):
     cases = corpus_cases()
     for i in range(nshort + nlong):
         cases.append(gen_case(rng.fork(), "long" if i % ((nshort + nlong) // nlong) == 0 else "short"))
-    outs = common.run_impl("blockstore", cases, "dev")
+    outs = run_impl_all(cases)
     coq_cases, pred_fail, kinds, feats = [], [], {}, {}
     nontrivial = set()
     nops = 0
     npred_cases = 0
     for i, (c, o) in enumerate(zip(cases, outs)):
-        if "crash" in o or "skipped" in o:
-            raise common.MachineryError(f"harness crashed on case {i}: {o}")
+        if "skipped" in o:
+            raise common.MachineryError(f"harness did not run case {i}")
         pf = predicate(c, o)
         for b in pf[:3]:
             if len(pred_fail) < 40:
@@ -504,9 +521,9 @@ def run(rep):
     if broken and not pred_fail:
         # violation search: a bigger run of the predicates on the implementation alone
         extra = [gen_case(rng.fork(), "long" if i % 5 == 0 else "short") for i in range(600 if tier == "quick" else 6000)]
-        for c, o in zip(extra, common.run_impl("blockstore", extra, "dev")):
+        for c, o in zip(extra, run_impl_all(extra)):
             searched += 1
-            if "crash" in o or "skipped" in o:
+            if "skipped" in o:
                 continue
             for b in predicate(c, o):
                 pred_fail.append({"case": c, **b})
